@@ -139,6 +139,12 @@ def run(ctx):
     mg = (bt[2], bt[3]) if bt[0] == "mut" and bt[1] == "update" else ((bt[2], (bt[3],)) if bt[0] == "bin" and bt[1] == "|" else None)
     bb_ok = mg is not None and call_is(mg[0], f"{BASE}._build_request_body") and tuple(strip(x) for x in mg[1]) == (("param", bb.params[1]),) and \
         any(x[0] == "dict" and any(k == ("const", "sessionId") and strip(v) == ("attr", ("param", bb.params[0]), "_session_id") for k, v in x[1]) for x in subterms(mg[0]))
+    if not bb_ok and call_is(bt, f"{BASE}._build_request_body") and bt[2]:
+        # the caller's fields merged into the argument instead: BASE({"sessionId": sid, **data}) - the same mapping, since the base body is
+        # `defaults.update(argument)` (checked below)
+        a_ = strip(bt[2][-1])
+        bb_ok = a_[0] == "mut" and a_[1] == "update" and tuple(strip(x) for x in a_[3]) == (("param", bb.params[1]),) and strip(a_[2])[0] == "dict" and \
+            any(k == ("const", "sessionId") and strip(v) == ("attr", ("param", bb.params[0]), "_session_id") for k, v in strip(a_[2])[1])
     ctx.ob("C19.a", bb.qual, bb_ok, "every request body carries sessionId = self._session_id plus the caller's fields", func=bb.qual, file=file, construct="_build_request_body",
            detail={"term": show(bt)[:200]}, fail="request bodies no longer carry the stored session id and the caller's fields")
     b0 = ctx.fn(f"{BASE}._build_request_body")
@@ -205,11 +211,20 @@ def run(ctx):
     # ---------------------------------------------------------------- C19.c
     pr = ctx.fn(f"{BASE}._post_request")
     loops = [n for n in ast.walk(pr.node) if isinstance(n, ast.While)]
+    from ..retry import loop_budget, loop_env
+    if not loops:
+        # the retry loop written as `for left in range(retries, 0, -1)` / `for attempt in range(retries)`: the budget is the parameter in the range
+        loops = [n for n in ast.walk(pr.node) if isinstance(n, ast.For) and isinstance(n.iter, ast.Call) and isinstance(n.iter.func, ast.Name) and n.iter.func.id == "range"
+                 and any(isinstance(x, ast.Name) and x.id in pr.params for a in n.iter.args for x in ast.walk(a))]
     if len(loops) != 1:
         raise AnalysisError(f"{pr.qual}: expected one retry loop")
     loop = loops[0]
-    from ..retry import loop_budget, loop_env
-    ctr = loop_budget(pr, loop)
+    if isinstance(loop, ast.For):
+        ctr = sorted({x.id for a in loop.iter.args for x in ast.walk(a) if isinstance(x, ast.Name) and x.id in pr.params})
+        if len(ctr) != 1:
+            raise AnalysisError(f"{pr.qual}: the range of the retry loop does not depend on exactly one parameter")
+    else:
+        ctr = loop_budget(pr, loop)
 
     def classify(c):
         f = c.func
